@@ -87,6 +87,39 @@ def effective_partial(node):
   return False
 
 
+def reference_reject(spec, value):
+  """Independent of ValueSpec.apply: the clauses of primitive specs that can be
+  decided from public parameters alone (so that a defect inside `apply` itself
+  cannot hide behind the acceptance oracle). Returns a clause name or None.
+  Only exact rules; anything else is left to `apply`."""
+  if spec.frozen or isinstance(spec, (T.Any, T.Union)):
+    return None
+  if value is None:
+    return None if spec.is_noneable else 'not-noneable'
+  if getattr(spec, 'transform', None) is not None:
+    return None
+  if isinstance(spec, (T.Int, T.Float)):
+    if isinstance(value, bool) or not isinstance(value, (int, float)):
+      return None
+    if value != value:
+      return None
+    if spec.min_value is not None and value < spec.min_value:
+      return 'min_value'
+    if spec.max_value is not None and value > spec.max_value:
+      return 'max_value'
+    return None
+  if isinstance(spec, T.Enum):
+    try:
+      return None if value in spec.values else 'enum-membership'
+    except Exception:  # pylint: disable=broad-except
+      return None
+  if isinstance(spec, T.Bool):
+    return None if isinstance(value, bool) else 'bool-type'
+  if isinstance(spec, T.Str):
+    return None if isinstance(value, str) else 'str-type'
+  return None
+
+
 def check_member(node, key, value, field, problems, where, tolerate_partial=False):
   spec = field.value
   partial = tolerate_partial or effective_partial(node)
@@ -98,6 +131,12 @@ def check_member(node, key, value, field, problems, where, tolerate_partial=Fals
   if spec.frozen and spec.has_default and not pg.eq(value, spec.default):
     problems.append(('frozen-changed', f'{where}[{key!r}]={value!r:.80} but the field '
                      f'is frozen to {spec.default!r:.80}'))
+    return
+  ref = reference_reject(spec, value)
+  if ref:
+    problems.append(('member-out-of-domain',
+                     f'{where}[{key!r}]={value!r:.80} violates {ref} of {spec!r:.120} '
+                     '(reference rule over the public spec parameters)'))
     return
   try:
     r = spec.apply(detach(value), allow_partial=partial)
